@@ -86,7 +86,7 @@ impl Check for C15 {
         "C15"
     }
     fn rule(&self) -> String {
-        "1-5 atoms of every kind/polarity/CaseMatching/Normalization built through Atom::new (texts = substrings / subsequences of the haystack, case variants, or independent), haystacks from small palettes (ASCII and non-ASCII), all matcher configs; each atom is evaluated alone on a fresh matcher directly through the matcher functions and the results are composed by the stated rule (conjunction, negation, sum, index concatenation, prior content kept); Pattern::score / Pattern::indices / permuted atom order on a shared matcher / Atom::score / match_list on 0-12 items with duplicates (stable descending sort) / MultiPattern over 1-3 columns compared. Non-trivial: >= 2 atoms with a negative one or two different case/normalization settings, on a haystack at least one atom matches. Distinct by case hash.".into()
+        "1-5 atoms of every kind/polarity/CaseMatching/Normalization built through Atom::new (texts = substrings / subsequences of the haystack, case variants, or independent), haystacks from small palettes (ASCII and non-ASCII), all matcher configs; each atom is evaluated alone on a fresh matcher directly through the matcher functions and the results are composed by the stated rule (conjunction, negation, sum, index concatenation, prior content kept); Pattern::score / Pattern::indices / permuted atom order on a shared matcher / Atom::score / match_list on 0-84 items drawn from at most five distinct strings (many score ties; stable descending sort) / MultiPattern over 1-3 columns compared. Non-trivial: >= 2 atoms with a negative one or two different case/normalization settings, on a haystack at least one atom matches. Distinct by case hash.".into()
     }
     fn assumptions(&self) -> Vec<String> {
         vec!["per-atom match decisions and scores are C01-C05's business; here only the composition is judged".into()]
@@ -129,12 +129,21 @@ impl Check for C15 {
                         AtomSpec { text: t.into_iter().collect(), kind, negative, case, norm }
                     })
                     .collect();
-                let mut items: Vec<String> = items_raw.into_iter().map(|s| text_from(&pal, &s).into_iter().collect()).collect();
-                if items.len() >= 3 {
-                    let d = items[0].clone();
-                    items.push(d);
-                    items.insert(1, hay.iter().collect());
-                    items.push(hay.iter().collect());
+                // few distinct strings, many repetitions: ties in score are the rule, and lists longer
+                // than 20 defeat sorts that are only accidentally stable on short inputs
+                let mut bases: Vec<String> = items_raw.iter().take(3).map(|s| text_from(&pal, s).into_iter().collect()).collect();
+                bases.push(hay.iter().collect());
+                let mut rev: Vec<char> = hay.clone();
+                rev.reverse();
+                bases.push(rev.into_iter().collect());
+                let long = items_raw.len() % 3 == 0;
+                let reps = if long { 7 } else { 1 };
+                let mut items: Vec<String> = vec![];
+                for r in 0..reps {
+                    for (k, s) in items_raw.iter().enumerate() {
+                        let sel = s.first().copied().unwrap_or(0) as usize + r * 3 + k;
+                        items.push(bases[sel % bases.len()].clone());
+                    }
                 }
                 let cols = cols_raw
                     .into_iter()
